@@ -46,3 +46,7 @@ def run(chk, repo):
         check_adapter(chk, "C04-T4", repo, L.ev, key)
     from ..shapes_rules import link_tables
     link_tables(chk, repo, L, "C04")
+    from .common_rules import parse_and_transform, to_dict_contract
+    chk.rule("C04-T6", "parsed containers reach the pipelines in the assumed shape (to_dict contract) and the leader is parsed with sar_leader_record and transformed by transform_metadata", 4)
+    to_dict_contract(chk, repo, "C04-T6")
+    parse_and_transform(chk, repo, "C04-T6", "ceos_alos2.sar_leader.io", "sar_leader_record", "transform_metadata", "open_sar_leader")
